@@ -676,6 +676,27 @@ func (client *client) resurrectDeadBrokers() {
 	client.deadSeeds = nil
 }
 
+func (client *client) countDeadSeeds() int {
+	client.lock.RLock()
+	defer client.lock.RUnlock()
+
+	return len(client.deadSeeds)
+}
+
+// resurrectDeadSeeds puts the n seeds that have been dead for the longest time
+// back behind the live seeds.
+func (client *client) resurrectDeadSeeds(n int) {
+	client.lock.Lock()
+	defer client.lock.Unlock()
+
+	if n > len(client.deadSeeds) {
+		n = len(client.deadSeeds)
+	}
+	Logger.Printf("client/brokers resurrecting %d dead seed brokers parked by an earlier refresh", n)
+	client.seedBrokers = append(client.seedBrokers, client.deadSeeds[:n]...)
+	client.deadSeeds = client.deadSeeds[n:]
+}
+
 func (client *client) any() *Broker {
 	client.lock.RLock()
 	defer client.lock.RUnlock()
@@ -874,8 +895,23 @@ func (client *client) tryRefreshMetadata(topics []string, attemptsRemaining int,
 		return err
 	}
 
-	broker := client.any()
-	for ; broker != nil && !pastDeadline(0); broker = client.any() {
+	// Seeds that an earlier refresh parked as dead are not handed out by any().
+	// If every live seed and every known broker fails, they get their chance
+	// before this attempt gives up: one of them may be the only broker that
+	// answers by now, and with Metadata.Retry.Max = 0 there is no later attempt.
+	parkedSeeds := client.countDeadSeeds()
+	nextBroker := func() *Broker {
+		broker := client.any()
+		if broker == nil && parkedSeeds > 0 {
+			client.resurrectDeadSeeds(parkedSeeds)
+			parkedSeeds = 0
+			broker = client.any()
+		}
+		return broker
+	}
+
+	broker := nextBroker()
+	for ; broker != nil && !pastDeadline(0); broker = nextBroker() {
 		allowAutoTopicCreation := client.conf.Metadata.AllowAutoTopicCreation
 		if len(topics) > 0 {
 			Logger.Printf("client/metadata fetching metadata for %v from broker %s\n", topics, broker.addr)
